@@ -20,7 +20,7 @@ from ..common import PY, SPEC, VERIF, MachineryError, Verdict, dump_json, requir
 from ..corpus import field, array, library
 from ..gen import generate, write_tree
 from ..proto import tree_files
-from ..pyimport import doc_paths, exports, extract, import_data_module
+from ..pyimport import doc_paths, exports, extract, import_data_module, observe_all
 from .. import common
 from .c18 import make_trees
 
@@ -37,6 +37,7 @@ def adversarial_tree():
     progs = [S("Data", "net", field("x", "char")), S("Net", "pub", field("d", "Data")), S("Client", "map", field("x", "Coords")),
              S("Server", "map", field("x", "char")), S("Map", "pub/server", field("x", "char")), S("Pub", "net", field("x", "char")),
              S("Encrypt", "", field("x", "char")), S("Protocol", "net/server", field("x", "Server")),
+             S("eoVersion", "pub", field("v", "char")), S("npcInfo", "net", field("v", "eoVersion")),      # type names need not start with a capital
              {"name": "TalkRequestClientPacket", "kind": "packet", "dir": "net/client", "family": "Talk", "action": "Request", "code": [field("d", "Data"), field("p", "Pub")], "rt": True}]
     return ("adversarial-names", lib, progs)
 
@@ -64,6 +65,7 @@ def run(tier, corrupt=False):
                 v.violation(f"tree {tname}: generator fails", f"valid tree rejected: {e!r}", {"tree": tname})
                 continue
             mods = extract(src)
+            observe_all(src, mods, PY)
             firsts = sorted(m for m, d in mods.items() if not d["generated"]) + sorted(m for m, d in mods.items() if d["generated"])[:6]
             if tier == "quick":
                 firsts = [m for i, m in enumerate(firsts) if i % 2 == seed() % 2 or m in ("eolib", "eolib.packet", "eolib.protocol.net.packet")]
